@@ -167,6 +167,13 @@ def main(run):
             d = keys.first_diff(sa, sb)
             run.violation(f'borrow-hash|{A}|{B}', f'{im["file"]}:{im["line"]} impl Borrow<{B}> for {A}: hash({A}) and hash(borrowed {B}) feed different value shapes to the hasher '
                           f'({d}) — a HashMap/HashSet keyed by {A} cannot be looked up through &{B}', {'shape_a': keys.show_shape(sa), 'shape_b': keys.show_shape(sb)})
+    # the two families compare alike: twins of every eq / cmp / partial_cmp / hash have the same callees, constants and branches AND apply them
+    # to the same arguments (a `self`/`other` swap in one family keeps each family's order total but makes Borrow<Iri> lookups in a
+    # BTreeMap keyed by UriBuf miss)
+    from .. import sibling
+    npairs = sibling.check(run, P, 'C08', only=lambda nm: re.search(r'(PartialEq|Eq|PartialOrd|Ord|Hash)(<[^>]*>)?>::(eq|ne|cmp|partial_cmp|hash)$', nm) is not None)
+    run.cov['comparison_twin_pairs'] = npairs
+    run.floor('comparison_twin_pairs', 30, 'URI/IRI twin pairs of comparison functions')
     run.floor('types', 20, 'comparable validated types')
     run.floor('borrow_pairs', 28, 'Borrow impls between library types')
     run.floor('owned_forwarders', 50, 'owned eq/cmp/hash forwarders')
